@@ -104,6 +104,7 @@ AllItems == {
   OMul("m_ka_ka", "ka", "ka"), OMul("m_a_ha", "a", "ha"),
   OMul("m_ka_cb", "ka", "cb"), OMul("m_b_bi", "b", "bi"), OMul("m_ha_ka", "ha", "ka"),
   OMul("m_apb_b", "apb", "b"), OMul("m_ppa_a", "ppa", "a"), OMul("m_ppa_ka", "ppa", "ka"),
+  OMul("m_qpa_a", "qpa", "a"), OMul("m_a_qpa", "a", "qpa"), ODiv("d_ppa_qpa", "ppa", "qpa"),
   OMul("m_p_a", "p", "a"),     OMul("m_p_q", "p", "q"),
   ODiv("d_ka_b", "ka", "b"),   ODiv("d_a2_ka", "a2", "ka"), ODiv("d_ka_ha", "ka", "ha"),
   ODiv("d_ka_ka", "ka", "ka"), ODiv("d_p_a", "p", "a"),     ODiv("d_p_ka", "p", "ka"),
@@ -185,6 +186,8 @@ FreshDiv(s1, s2) ==
     IN  IF a.typ = b.typ
         THEN IF s1 = s2 THEN Res("num", ROne, NoName)
              ELSE IF Scaled(a.typ) THEN Res("num", RDiv(a.num, b.num), NoName)
+             \* without a reference unit only units built on the same base units have a common scale
+             ELSE IF ~a.base /\ ~b.base /\ a.vec = b.vec THEN Res("num", RDiv(a.num, b.num), NoName)
              ELSE Res("noconv", NoRat, NoName)
         ELSE Resolve2(RDiv(a.num, b.num), VAdd(a.vec, b.vec, -1))
 FreshPow(s1, n) ==
